@@ -30,6 +30,47 @@ type Sender struct {
 	NoContextTakeover bool
 	buf               bytes.Buffer
 	w                 *flate.Writer
+	hist              []byte // plaintext sent so far (last 32 KiB), context takeover only
+}
+
+func (s *Sender) remember(msg []byte) {
+	if s.NoContextTakeover {
+		return
+	}
+	s.hist = append(s.hist, msg...)
+	if len(s.hist) > window {
+		s.hist = append([]byte(nil), s.hist[len(s.hist)-window:]...)
+	}
+}
+
+func (s *Sender) fresh() (*flate.Writer, error) {
+	if !s.NoContextTakeover && len(s.hist) > 0 {
+		// a stream ended by a final block cannot continue; the LZ77 window can:
+		// start a new stream primed with the plaintext sent so far
+		return flate.NewWriterDict(&s.buf, flate.BestCompression, s.hist)
+	}
+	return flate.NewWriter(&s.buf, flate.BestCompression)
+}
+
+// CompressFinal returns the payload of a message whose DEFLATE stream ends with
+// a BFINAL=1 block followed by one 0x00 byte (RFC 7692 7.2.3.4), as senders
+// built on zlib's Z_FINISH or flate.Writer.Close produce.
+func (s *Sender) CompressFinal(msg []byte) ([]byte, error) {
+	s.buf.Reset()
+	w, err := s.fresh()
+	if err != nil {
+		return nil, err
+	}
+	if _, err := w.Write(msg); err != nil {
+		return nil, err
+	}
+	if err := w.Close(); err != nil {
+		return nil, err
+	}
+	s.w = nil
+	s.remember(msg)
+	out := append([]byte(nil), s.buf.Bytes()...)
+	return append(out, 0x00), nil
 }
 
 // Compress returns the payload of the compressed message: the DEFLATE stream
@@ -37,7 +78,7 @@ type Sender struct {
 func (s *Sender) Compress(msg []byte) ([]byte, error) {
 	s.buf.Reset()
 	if s.w == nil || s.NoContextTakeover {
-		w, err := flate.NewWriter(&s.buf, flate.BestCompression)
+		w, err := s.fresh()
 		if err != nil {
 			return nil, err
 		}
@@ -49,6 +90,7 @@ func (s *Sender) Compress(msg []byte) ([]byte, error) {
 	if err := s.w.Flush(); err != nil {
 		return nil, err
 	}
+	s.remember(msg)
 	out := append([]byte(nil), s.buf.Bytes()...)
 	if len(out) < 4 || !bytes.Equal(out[len(out)-4:], tail) {
 		return nil, errors.New("pmd: sync flush did not end with 00 00 ff ff")
